@@ -34,19 +34,41 @@ func c15ShapesSchema() *c15Schema {
 	album := &c15Entity{Name: "Album", Parents: []string{"Zine"}, Shape: []sAttr{opt("label", tString)}}
 	photo := &c15Entity{Name: "Photo", Parents: []string{"Album", "Zine"}, Tags: scalarT(tString), Shape: sortAttrs([]sAttr{opt("label", tString), {Name: "n", T: scalarT(tLong)}})}
 	ctx := sortAttrs([]sAttr{opt("o", tLong), {Name: "flag", T: scalarT(tBool)}, {Name: "key", T: scalarT(tString)}})
+	// a four-level chain Leaf in Mid in Top in Root; attribute no<T> is declared on every type of
+	// the chain except T, so `resource.no<T>` is ill-typed for exactly one depth of the chain
+	req := func(n string) sAttr { return sAttr{Name: n, T: scalarT(tString)} }
+	root := &c15Entity{Name: "Root", Shape: sortAttrs([]sAttr{req("noLeaf"), req("noMid"), req("noTop")})}
+	top := &c15Entity{Name: "Top", Parents: []string{"Root"}, Shape: sortAttrs([]sAttr{req("noLeaf"), req("noMid")})}
+	mid := &c15Entity{Name: "Mid", Parents: []string{"Top"}, Shape: sortAttrs([]sAttr{req("noLeaf"), req("noTop")})}
+	leaf := &c15Entity{Name: "Leaf", Parents: []string{"Mid"}, Shape: sortAttrs([]sAttr{req("noMid"), req("noTop")})}
+	// one entity type with a required attribute of every kind of type (typing family)
+	typed := &c15Entity{Name: "Typed", Tags: scalarT(tString), Shape: sortAttrs(c15TypedAttrs())}
 	return &c15Schema{
-		Ents: []*c15Entity{{Name: "Admin"}, album, photo, user, {Name: "Zine"}},
+		Ents: []*c15Entity{{Name: "Admin"}, album, leaf, mid, photo, root, top, typed, user, {Name: "Zine"}},
 		Acts: []*sAction{
-			{ID: "view", Applies: true, Principals: []string{"User"}, Resources: []string{"Album", "Photo", "Zine"}, Ctx: ctx},
+			{ID: "view", Applies: true, Principals: []string{"User"}, Resources: []string{"Album", "Leaf", "Mid", "Photo", "Root", "Top", "Typed", "Zine"}, Ctx: ctx},
 			{ID: "other", Applies: true, Principals: []string{"User"}, Resources: []string{"Photo"}},
 		},
 	}
 }
 
+// c15TypedAttrs: the attributes of the entity type Typed, one per kind of type.
+func c15TypedAttrs() []sAttr {
+	a := func(n string, t *c15Type) sAttr { return sAttr{Name: n, T: t} }
+	return []sAttr{
+		a("b", scalarT(tBool)), a("n", scalarT(tLong)), a("s", scalarT(tString)), a("e", entT("Album")),
+		a("sl", setT(scalarT(tLong))), a("ss", setT(scalarT(tString))), a("se", setT(entT("Album"))),
+		a("sse", setT(setT(entT("Album")))), a("ssl", setT(setT(scalarT(tLong)))),
+		a("r", recT(sAttr{Name: "x", T: scalarT(tLong)}, sAttr{Name: "e", T: entT("Album")})), a("sr", setT(recT(sAttr{Name: "x", T: scalarT(tLong)}))),
+		a("d", scalarT(tDecimal)), a("dt", scalarT(tDatetime)), a("du", scalarT(tDuration)), a("ip", scalarT(tIP)),
+	}
+}
+
 type c15shape struct {
-	conds []model.Cond
-	rtype string // resource type the policy is pinned to
-	kind  string
+	conds  []model.Cond
+	rtype  string // resource type the policy is pinned to
+	kind   string
+	rscope *model.Scope // resource scope clause when it is not `resource is <rtype>`
 }
 
 func c15Shapes() []c15shape {
@@ -113,7 +135,7 @@ func c15Shapes() []c15shape {
 							or(c, tl()), and(not(c), tl()), model.If(c, tr, tl()),
 						}
 						for _, w := range ws {
-							out = append(out, c15shape{when(w), rt, "union"})
+							out = append(out, c15shape{when(w), rt, "union", nil})
 						}
 					}
 				}
@@ -228,10 +250,10 @@ func c15Shapes() []c15shape {
 				continue
 			}
 			out = append(out,
-				c15shape{when(and(x.build(), g.use())), "Photo", "capleak"},
-				c15shape{when(model.If(x.build(), g.use(), tr)), "Photo", "capleak"},
-				c15shape{when(model.If(not(x.build()), tr, g.use())), "Photo", "capleak"},
-				c15shape{when(or(not(x.build()), g.use())), "Photo", "capleak"},
+				c15shape{when(and(x.build(), g.use())), "Photo", "capleak", nil},
+				c15shape{when(model.If(x.build(), g.use(), tr)), "Photo", "capleak", nil},
+				c15shape{when(model.If(not(x.build()), tr, g.use())), "Photo", "capleak", nil},
+				c15shape{when(or(not(x.build()), g.use())), "Photo", "capleak", nil},
 			)
 		}
 	}
@@ -256,13 +278,83 @@ func c15Shapes() []c15shape {
 			guard := func() *model.Expr { return model.Bin(model.OHasTag, pv, gk()) }
 			use := func() *model.Expr { return model.Like(model.Bin(model.OGetTag, pv, uk()), star) }
 			out = append(out,
-				c15shape{when(and(guard(), use())), "Photo", "keyalias"},
-				c15shape{when(model.If(guard(), use(), tr)), "Photo", "keyalias"},
-				c15shape{when(or(not(guard()), use())), "Photo", "keyalias"},
-				c15shape{when(and(and(guard(), curator), use())), "Photo", "keyalias"},
-				c15shape{[]model.Cond{{When: true, Body: guard()}, {When: true, Body: use()}}, "Photo", "keyalias"},
-				c15shape{[]model.Cond{{When: false, Body: not(guard())}, {When: true, Body: use()}}, "Photo", "keyalias"},
+				c15shape{when(and(guard(), use())), "Photo", "keyalias", nil},
+				c15shape{when(model.If(guard(), use(), tr)), "Photo", "keyalias", nil},
+				c15shape{when(or(not(guard()), use())), "Photo", "keyalias", nil},
+				c15shape{when(and(and(guard(), curator), use())), "Photo", "keyalias", nil},
+				c15shape{[]model.Cond{{When: true, Body: guard()}, {When: true, Body: use()}}, "Photo", "keyalias", nil},
+				c15shape{[]model.Cond{{When: false, Body: not(guard())}, {When: true, Body: use()}}, "Photo", "keyalias", nil},
 			)
+		}
+	}
+
+	// ---- scopechain: the resource scope is `in` an entity at the top of a four-level type
+	// chain; the condition is ill-typed for exactly one type below it. The policy is evaluated
+	// in the environment of that type (which the scope admits).
+	for _, t := range []string{"Leaf", "Mid", "Top"} {
+		bad := func() *model.Expr { return model.Like(model.Access(rv, "no"+t), star) }
+		for _, anchor := range []string{"Root", "Top", "Mid"} {
+			if anchor == t || (anchor == "Mid" && t == "Top") {
+				continue
+			}
+			depthOK := map[string]int{"Root": 0, "Top": 1, "Mid": 2, "Leaf": 3}
+			if depthOK[t] < depthOK[anchor] {
+				continue
+			}
+			sc := &model.Scope{Kind: model.ScIn, Ent: model.Ent(anchor, "a")}
+			out = append(out,
+				c15shape{when(bad()), t, "scopechain", sc},
+				c15shape{when(and(curator, bad())), t, "scopechain", sc},
+				c15shape{[]model.Cond{{When: false, Body: not(bad())}}, t, "scopechain", sc},
+				c15shape{when(model.If(flag, bad(), tr)), t, "scopechain", sc},
+			)
+		}
+	}
+
+	// ---- typing: every operator over operands of every kind of type (attributes of one
+	// entity, all required, so the accesses themselves are safe). Most combinations are
+	// ill-typed and must be rejected; whatever is accepted is evaluated. The expression is
+	// wrapped as `E == E`, which is well typed exactly when E is.
+	var tattrs []string
+	for _, a := range c15TypedAttrs() {
+		tattrs = append(tattrs, a.Name)
+	}
+	opd := func(n string) *model.Expr { return model.Access(rv, n) }
+	wrap := func(e func() *model.Expr) []model.Cond { return when(model.Bin(model.OEq, e(), e())) }
+	binOps := []model.Op{model.OAnd, model.OOr, model.OAdd, model.OSub, model.OMul, model.OLt, model.OLe, model.OGt, model.OGe, model.OIn,
+		model.OContains, model.OContainsAll, model.OContainsAny, model.OHasTag, model.OGetTag}
+	binExt := []string{"lessThan", "lessThanOrEqual", "greaterThan", "greaterThanOrEqual", "isInRange", "offset", "durationSince"}
+	unExt := []string{"toDate", "toTime", "toMilliseconds", "toSeconds", "toMinutes", "toHours", "toDays", "isIpv4", "isIpv6", "isLoopback", "isMulticast", "decimal", "ip", "datetime", "duration"}
+	for _, x := range tattrs {
+		for _, y := range tattrs {
+			x, y := x, y
+			for _, op := range binOps {
+				op := op
+				out = append(out, c15shape{wrap(func() *model.Expr { return model.Bin(op, opd(x), opd(y)) }), "Typed", "typing", nil})
+			}
+			for _, fn := range binExt {
+				fn := fn
+				out = append(out, c15shape{wrap(func() *model.Expr { return model.Ext(fn, opd(x), opd(y)) }), "Typed", "typing", nil})
+			}
+			out = append(out, c15shape{wrap(func() *model.Expr { return model.IsIn(opd(x), "Album", opd(y)) }), "Typed", "typing", nil},
+				c15shape{wrap(func() *model.Expr { return model.If(opd(x), opd(y), opd(y)) }), "Typed", "typing", nil})
+		}
+		x := x
+		uns := []func() *model.Expr{
+			func() *model.Expr { return not(opd(x)) }, func() *model.Expr { return model.Un(model.ONeg, opd(x)) }, func() *model.Expr { return model.Un(model.OIsEmpty, opd(x)) },
+			func() *model.Expr { return model.Access(opd(x), "x") }, func() *model.Expr { return model.Has(opd(x), "x") }, func() *model.Expr { return model.Like(opd(x), star) },
+			func() *model.Expr { return model.Is(opd(x), "Album") }, func() *model.Expr { return model.Bin(model.OIn, pv, opd(x)) }, func() *model.Expr { return model.Bin(model.OIn, opd(x), rv) },
+			func() *model.Expr { return model.Bin(model.OIn, opd(x), model.SetE(opd("e"), rv)) }, func() *model.Expr { return model.Bin(model.OIn, pv, model.SetE(opd(x))) },
+			func() *model.Expr { return model.Bin(model.OAdd, opd(x), L(model.Long(1))) }, func() *model.Expr { return model.Bin(model.OLt, L(model.Long(1)), opd(x)) },
+			func() *model.Expr { return model.Bin(model.OContains, opd(x), L(model.Long(1))) }, func() *model.Expr { return model.Bin(model.OGetTag, pv, opd(x)) },
+			func() *model.Expr { return model.Bin(model.OHasTag, pv, opd(x)) },
+		}
+		for _, u := range uns {
+			out = append(out, c15shape{wrap(u), "Typed", "typing", nil})
+		}
+		for _, fn := range unExt {
+			fn := fn
+			out = append(out, c15shape{wrap(func() *model.Expr { return model.Ext(fn, opd(x)) }), "Typed", "typing", nil})
 		}
 	}
 
@@ -287,12 +379,12 @@ func c15Shapes() []c15shape {
 						if order == 1 {
 							two = []model.Cond{uc, gc}
 						}
-						out = append(out, c15shape{two, "Photo", "clauses"})
+						out = append(out, c15shape{two, "Photo", "clauses", nil})
 						for pos := 0; pos <= 2; pos++ {
 							for wn := 0; wn < 2; wn++ {
 								nc := model.Cond{When: wn == 0, Body: flag}
 								three := append(append(append([]model.Cond{}, two[:pos]...), nc), two[pos:]...)
-								out = append(out, c15shape{three, "Photo", "clauses"})
+								out = append(out, c15shape{three, "Photo", "clauses", nil})
 							}
 						}
 					}
@@ -308,8 +400,12 @@ func c15ShapePolicy(s c15shape) *model.Policy {
 	for i, c := range s.conds {
 		conds[i] = model.Cond{When: c.When, Body: c15Clone(c.Body)}
 	}
+	rs := model.Scope{Kind: model.ScIs, Type: s.rtype}
+	if s.rscope != nil {
+		rs = *s.rscope
+	}
 	return &model.Policy{Permit: true, P: model.Scope{Kind: model.ScIs, Type: "User"}, A: model.Scope{Kind: model.ScEq, Ent: model.Ent("Action", "view")},
-		R: model.Scope{Kind: model.ScIs, Type: s.rtype}, Conds: conds}
+		R: rs, Conds: conds}
 }
 
 func c15ShapeEnv(sc *c15Schema, rtype string) penv {
